@@ -7,9 +7,8 @@ Theorems over model D1 (`NLV/Model/Trace.lean`) for **every** label list (every 
 The invariants (`TrInv`: trace numbers, `IdInv`: thread and task numbers) and the case analysis of `step` live in
 `NLV/Lemmas/Trace.lean`.
 
-`attribution` as originally stated is **false** of the model for exactly two actions of an entity that has (so far) no
-trace at all: `stopRefused` and `write` (both are no-ops then — the write is "not reported"); see `attribution_partial`,
-`attribution_of_traced` and the counter-example below.
+An entity that has no trace (yet) can still act — draw its numbers, have a command loop refused, write to stdout —
+but emits nothing then (`untraced_emits_nothing`): the write is "not reported".
 -/
 namespace NLV.C06
 open NLV.Trace
@@ -29,19 +28,28 @@ theorem ids_consistent (ls : List (Ent × Act)) (s : St) (h : run {} ls = some s
       (t1.ent.thread = t2.ent.thread ↔ t1.threadNo = t2.threadNo) ∧
       (t1.taskNo.isSome = t1.ent.task.isSome) ∧
       (t1.threadNo = t2.threadNo → t1.taskNo = t2.taskNo → t1.taskNo.isSome = true → t1.ent.task = t2.ent.task ∨ t1.traceNo = t2.traceNo) := by
-  have hi := (inv_of_run h).id
   intro t1 h1 t2 h2
-  refine ⟨⟨?_, ?_⟩, hi.taskSome t1 h1, fun a b c => Or.inr (hi.taskInj t1 h1 t2 h2 a b c)⟩
+  have hi := (inv_of_run h).id
+  have m1 : (⟨some t1.traceNo, t1.ent, t1.threadNo, t1.taskNo⟩ : Holder) ∈ holders s :=
+    mem_holders.mpr (Or.inl ⟨t1, h1, rfl⟩)
+  have m2 : (⟨some t2.traceNo, t2.ent, t2.threadNo, t2.taskNo⟩ : Holder) ∈ holders s :=
+    mem_holders.mpr (Or.inl ⟨t2, h2, rfl⟩)
+  refine ⟨⟨?_, ?_⟩, hi.taskSome _ m1, ?_⟩
   · intro heq
-    have g1 := hi.thrGet t1 h1
-    have g2 := hi.thrGet t2 h2
+    have g1 := hi.thrGet _ m1
+    have g2 := hi.thrGet _ m2
+    simp only at g1 g2
     rw [heq, g2] at g1
     injection g1 with g1
     exact g1.symm
   · intro heq
-    have m1 := alGet_some_mem (hi.thrGet t1 h1)
-    have m2 := alGet_some_mem (hi.thrGet t2 h2)
-    exact hi.thrInj _ m1 _ m2 heq
+    have a1 := alGet_some_mem (hi.thrGet _ m1)
+    have a2 := alGet_some_mem (hi.thrGet _ m2)
+    exact hi.thrInj _ a1 _ a2 heq
+  · intro a b c
+    have := (hi.taskInj _ m1 _ m2 a b c).1
+    simp only [Option.some.injEq] at this
+    exact Or.inr this
 
 /-- a stronger form of the third clause: within one thread number, a task number is given to one trace only (a task that
 is traced again after its trace ended gets a new task number) -/
@@ -49,114 +57,52 @@ theorem task_numbers_fresh (ls : List (Ent × Act)) (s : St) (h : run {} ls = so
     ∀ t1 ∈ s.traces, ∀ t2 ∈ s.traces, t1.threadNo = t2.threadNo → t1.taskNo = t2.taskNo → t1.taskNo.isSome = true →
       t1 = t2 := by
   intro t1 h1 t2 h2 a b c
-  exact (inv_of_run h).tr.uniq t1 h1 t2 h2 ((inv_of_run h).id.taskInj t1 h1 t2 h2 a b c)
+  have hi := (inv_of_run h).id
+  have m1 : (⟨some t1.traceNo, t1.ent, t1.threadNo, t1.taskNo⟩ : Holder) ∈ holders s :=
+    mem_holders.mpr (Or.inl ⟨t1, h1, rfl⟩)
+  have m2 : (⟨some t2.traceNo, t2.ent, t2.threadNo, t2.taskNo⟩ : Holder) ∈ holders s :=
+    mem_holders.mpr (Or.inl ⟨t2, h2, rfl⟩)
+  have := (hi.taskInj _ m1 _ m2 a b c).1
+  simp only [Option.some.injEq] at this
+  exact (inv_of_run h).tr.uniq t1 h1 t2 h2 this
 
-/- ORIGINAL STATEMENT — FALSE of the model (see the counter-example below):
-
-theorem attribution (ls : List (Ent × Act)) (s : St) (h : run {} ls = some s) (e : Ent) (a : Act) (s' : St)
+/-- attribution: every event an action of entity `e` emits carries the trace number of `e`'s live trace (the one it had
+before the step) — in every state, for every action; the hidden steps and the refused command loop emit nothing -/
+theorem attribution (ls : List (Ent × Act)) (s : St) (_h : run {} ls = some s) (e : Ent) (a : Act) (s' : St)
     (hs : step s e a = some s') :
-    ∃ tr ∈ s'.traces, tr.ent = e ∧ ∀ ev ∈ newEvents s s', evTrace ev = tr.traceNo
+    ∀ ev ∈ newEvents s s', ∃ tr, findTrace s.traces e = some tr ∧ evTrace ev = tr.traceNo ∧ tr ∈ s.traces ∧ tr.ent = e := by
+  obtain ⟨evs, ho, _, _, hat, _⟩ := step_out hs
+  rw [newEvents_of_out ho]
+  intro ev hev
+  obtain ⟨tr, hf, ht⟩ := hat ev hev
+  obtain ⟨hm, he, _⟩ := findTrace_some hf
+  exact ⟨tr, hf, ht, hm, he⟩
 
-An entity without any trace (it never executed traced code) can still perform `stopRefused` (a `cmdloop()` outside a trace
-call is refused) and `write` (its stdout line is not reported): both are enabled, change nothing and emit nothing, but
-there is no trace of `e` to attribute to. -/
-
-/-- counter-example to the original `attribution`: in the initial state (reached by the empty run) entity `⟨0, none⟩` may
-`write`; the state is unchanged and there is no trace of that entity -/
-example : run {} [] = some {} ∧ step {} ⟨0, none⟩ (.write 0) = some {} ∧
-    ¬ ∃ tr ∈ ({} : St).traces, tr.ent = ⟨0, none⟩ ∧ ∀ ev ∈ newEvents {} {}, evTrace ev = tr.traceNo := by decide
-/-- the same for `stopRefused` -/
-example : step {} ⟨0, none⟩ .stopRefused = some {} ∧
-    ¬ ∃ tr ∈ ({} : St).traces, tr.ent = ⟨0, none⟩ ∧ ∀ ev ∈ newEvents {} {}, evTrace ev = tr.traceNo := by decide
-
-/-- attribution (strongest true variant): every event an action of entity `e` emits carries the trace number of `e`'s
-trace — unless `e` has no live trace and the action is `stopRefused` or `write`, which then changes nothing and emits
-nothing.  (Holds in every state, reachable or not.) -/
-theorem attribution_partial (ls : List (Ent × Act)) (s : St) (_h : run {} ls = some s) (e : Ent) (a : Act) (s' : St)
-    (hs : step s e a = some s') :
-    (∃ tr ∈ s'.traces, tr.ent = e ∧ ∀ ev ∈ newEvents s s', evTrace ev = tr.traceNo) ∨
-    (findTrace s.traces e = none ∧ (a = .stopRefused ∨ ∃ t, a = .write t) ∧ s' = s ∧ newEvents s s' = []) := by
-  rcases step_cases hs with hl | ⟨_, _, hl⟩ | ⟨rfl, _, tr, hf, _⟩ | ⟨rfl, hf, ha⟩ | ⟨tr, text, hf, _, rfl⟩
-  · obtain ⟨tr, ph', en', evs, nc', np', hf, hL, rfl⟩ := hl
-    obtain ⟨hm, he, _⟩ := findTrace_some hf
-    refine Or.inl ⟨{ tr with phase := ph', ended := en' }, mem_setTrace.mpr (Or.inl ⟨rfl, tr, hm, rfl⟩), he, ?_⟩
-    intro ev hev
-    simp only [newEvents, List.drop_left] at hev
-    exact local_evTrace hL ev hev
-  · obtain ⟨tr, ph', en', evs, nc', np', hf, hL, rfl⟩ := hl
-    obtain ⟨hm, he, _⟩ := findTrace_some hf
-    have htn : tr.traceNo = s.nextTrace := by
-      simp only [addTrace_traces, List.mem_append, List.mem_singleton] at hm
-      rcases hm with hm | rfl
-      · have hf' : findTrace (s.traces) e = none := by assumption
-        have := findTrace_none hf' tr hm he
-        have hl := (findTrace_some hf).2.2
-        rw [this] at hl; cases hl
-      · rfl
-    refine Or.inl ⟨{ tr with phase := ph', ended := en' }, mem_setTrace.mpr (Or.inl ⟨rfl, tr, hm, rfl⟩), he, ?_⟩
-    intro ev hev
-    have hout : newEvents s { addTrace s e with
-        traces := setTrace (addTrace s e).traces { tr with phase := ph', ended := en' }, nextCall := nc',
-        nextPrompt := np', out := (addTrace s e).out ++ evs } =
-        [.startTrace s.nextTrace (newThreadNo s e) (newTaskNo s e)] ++ evs := by
-      simp [newEvents, List.append_assoc]
-    rw [hout] at hev
-    simp only [List.mem_append, List.mem_singleton] at hev
-    rcases hev with rfl | hev
-    · exact htn.symm
-    · exact local_evTrace hL ev hev
-  · obtain ⟨hm, he, _⟩ := findTrace_some hf
-    exact Or.inl ⟨tr, hm, he, by simp [newEvents]⟩
-  · exact Or.inr ⟨hf, ha, rfl, by simp [newEvents]⟩
-  · obtain ⟨hm, he, _⟩ := findTrace_some hf
-    refine Or.inl ⟨tr, hm, he, ?_⟩
-    intro ev hev
-    simp only [newEvents, List.drop_left, List.mem_singleton] at hev
-    subst hev; rfl
-
-/-- `attribution` holds for every action other than `stopRefused` and `write` … -/
-theorem attribution_of_traced (ls : List (Ent × Act)) (s : St) (h : run {} ls = some s) (e : Ent) (a : Act) (s' : St)
-    (hs : step s e a = some s') (ha : a ≠ .stopRefused ∧ ∀ t, a ≠ .write t) :
-    ∃ tr ∈ s'.traces, tr.ent = e ∧ ∀ ev ∈ newEvents s s', evTrace ev = tr.traceNo := by
-  rcases attribution_partial ls s h e a s' hs with h1 | ⟨_, h2, _⟩
-  · exact h1
-  · rcases h2 with h2 | ⟨t, h2⟩
-    · exact absurd h2 ha.1
-    · exact absurd h2 (ha.2 t)
-
-/-- … and for `stopRefused` and `write` too as soon as the entity has a live trace -/
-theorem attribution_of_live (ls : List (Ent × Act)) (s : St) (h : run {} ls = some s) (e : Ent) (a : Act) (s' : St)
-    (hs : step s e a = some s') (hf : (findTrace s.traces e).isSome = true) :
-    ∃ tr ∈ s'.traces, tr.ent = e ∧ ∀ ev ∈ newEvents s s', evTrace ev = tr.traceNo := by
-  rcases attribution_partial ls s h e a s' hs with h1 | ⟨h2, _⟩
-  · exact h1
-  · rw [h2] at hf; cases hf
+/-- an entity without a live trace emits nothing, whatever it does: its `write` is not reported -/
+theorem untraced_emits_nothing (s : St) (e : Ent) (a : Act) (s' : St) (hs : step s e a = some s')
+    (hf : findTrace s.traces e = none) : newEvents s s' = [] := by
+  obtain ⟨evs, ho, _, _, _, hnone⟩ := step_out hs
+  rw [newEvents_of_out ho]
+  exact hnone hf
 
 /-- an action of one entity leaves the trace of every other entity exactly as it was -/
 theorem other_traces_untouched (ls : List (Ent × Act)) (s : St) (h : run {} ls = some s) (e : Ent) (a : Act) (s' : St)
     (hs : step s e a = some s') : ∀ tr ∈ s.traces, tr.ent ≠ e → tr ∈ s'.traces := by
+  intro tr htr hne
   have hi := (inv_of_run h).tr
-  intro x hx hxe
-  rcases step_cases hs with hl | ⟨hf0, _, hl⟩ | ⟨rfl, _⟩ | ⟨rfl, _⟩ | ⟨tr, text, _, _, rfl⟩
-  · obtain ⟨tr, ph', en', evs, nc', np', hf, _, rfl⟩ := hl
+  rcases step_cases hs with hl | ⟨_, _, _, rfl⟩ | ⟨_, n, _, rfl⟩ | ⟨rfl, _⟩ | ⟨rfl, _⟩ | ⟨_, _, _, _, rfl⟩
+  · obtain ⟨tr0, ph', en', evs, nc', np', hf, _, rfl⟩ := hl
     obtain ⟨hm, he, _⟩ := findTrace_some hf
-    refine mem_setTrace.mpr (Or.inr ⟨hx, ?_⟩)
+    refine mem_setTrace.mpr (Or.inr ⟨htr, ?_⟩)
     intro hno
-    have := hi.uniq x hx tr hm hno
+    have := hi.uniq tr htr tr0 hm hno
     subst this
-    exact hxe he
-  · obtain ⟨tr, ph', en', evs, nc', np', hf, _, rfl⟩ := hl
-    obtain ⟨hm, he, _⟩ := findTrace_some hf
-    have hi' := trInv_addTrace hi hf0
-    have hx' : x ∈ (addTrace s e).traces := by rw [addTrace_traces]; exact List.mem_append_left _ hx
-    refine mem_setTrace.mpr (Or.inr ⟨hx', ?_⟩)
-    intro hno
-    have := hi'.uniq x hx' tr hm hno
-    subst this
-    exact hxe he
-  · exact hx
-  · exact hx
-  · exact hx
+    exact hne he
+  · rw [addNewcomer_traces]; exact htr
+  · exact List.mem_append_left _ htr
+  · exact htr
+  · exact htr
+  · exact htr
 
 /-- a prompt left unanswered in one trace never blocks another: whether an action of entity `e` is enabled, and what it
 emits, does not depend on the phase of any other entity's trace -/
@@ -182,21 +128,26 @@ theorem open_prompt_does_not_block_others (ls : List (Ent × Act)) (s : St) (h :
 
 /-! ## non-vacuity: concrete runs -/
 
+/-- first events of an entity: numbers drawn, start-trace emitted, first trace call drawn and emitted -/
+def intro (e : Ent) (file line frame : Nat) : List (Ent × Act) :=
+  [(e, .drawIds), (e, .drawTrace), (e, .emitStart), (e, .drawCall file line frame 0), (e, .emitCall)]
+
 /-- two threads and a task; the task's trace ends and the task is traced again (new trace, new task number) -/
 def demo : List (Ent × Act) :=
-  [(⟨1, none⟩, .enter 10 1 100 0), (⟨1, some 7⟩, .enter 11 5 200 0), (⟨2, none⟩, .enter 12 1 300 0),
-   (⟨1, some 7⟩, .stop), (⟨1, some 7⟩, .prompt 3), (⟨1, none⟩, .leave), (⟨1, some 7⟩, .abort), (⟨1, some 7⟩, .finish),
-   (⟨1, some 7⟩, .enter 11 6 200 0), (⟨1, some 8⟩, .enter 11 7 400 0)]
+  intro ⟨1, none⟩ 10 1 100 ++ intro ⟨1, some 7⟩ 11 5 200 ++ intro ⟨2, none⟩ 12 1 300 ++
+  [(⟨1, some 7⟩, .stop), (⟨1, some 7⟩, .drawPrompt), (⟨1, some 7⟩, .emitPrompt 3), (⟨1, none⟩, .leave),
+   (⟨1, some 7⟩, .answer 0), (⟨1, some 7⟩, .endLoop), (⟨1, some 7⟩, .leave), (⟨1, some 7⟩, .finish)] ++
+  intro ⟨1, some 7⟩ 11 6 200 ++ intro ⟨1, some 8⟩ 11 7 400
 
 example : ((run {} demo).map fun s => s.traces.map fun t => (t.traceNo, t.threadNo, t.taskNo, t.ended)) =
     some [(1, 1, none, false), (2, 1, some 1, true), (3, 2, none, false), (4, 1, some 2, false), (5, 1, some 3, false)] := by
   decide
-/-- while the task of thread 1 sits at its prompt (after 5 labels), thread 2 can stop and be prompted as well, and the
+/-- while the task of thread 1 sits at its prompt (after 18 labels), thread 2 can stop and be prompted as well, and the
 first thread can leave its trace call -/
-example : ((run {} (demo.take 5)).bind fun s =>
-    run s [(⟨2, none⟩, .stop), (⟨2, none⟩, .prompt 4), (⟨1, none⟩, .leave)]).isSome = true := by decide
+example : ((run {} (demo.take 18)).bind fun s =>
+    run s [(⟨2, none⟩, .stop), (⟨2, none⟩, .drawPrompt), (⟨2, none⟩, .emitPrompt 4), (⟨1, none⟩, .leave)]).isSome = true := by decide
 /-- the events of an action carry the trace number of the acting entity's trace -/
-example : ((run {} (demo.take 6)).bind fun s => (step s ⟨1, some 7⟩ .abort).map fun s' => (newEvents s s').map evTrace) =
-    some [2, 2, 2] := by decide
+example : ((run {} (demo.take 19)).bind fun s => (step s ⟨1, some 7⟩ (.answer 0)).map fun s' => (newEvents s s').map evTrace) =
+    some [2] := by decide
 
 end NLV.C06
